@@ -307,6 +307,19 @@ def c06(tier):
     take(ck, "C06", v2, others)
     if c2.get("thread_runs", 0) == 0 or c2.get("isready_runs", 0) == 0 or cnt.get("stop_runs", 0) == 0:
         raise InfraError("vacuous C06 run")
+    # (3) whole-process sessions of the engine's own executable: a go that arrives while a search is running (the running search is
+    #     ended and answered first), isready in between, then stop: the reader must stay responsive and both searches be answered
+    dg = []
+    for rep in range(6 if full else 3):
+        res = process_session(build.engine_exe("plain"), ["position startpos", "go infinite", "@sleep %d" % rnd.choice([20, 80, 200]), "go infinite", "isready", "@wait readyok",
+                                                           "@sleep 50", "stop", "@wait bestmove", "@wait bestmove", "quit"], {}, limit_s=10)
+        nb = len([l for l in res["out"] if l.startswith("bestmove")])
+        ok = res["exit"] == 0 and "readyok" in res["out"] and nb == 2
+        dg.append(dict(exit=res["exit"], bestmoves=nb, readyok="readyok" in res["out"]))
+        if not ok:
+            kind = "isready_not_answered_during_search" if "readyok" not in res["out"] else "stop_lost"
+            ck.discrepancy({"kind": kind, "stop_id": "go_while_searching"}, dict(prop="C06", kind=kind, detail=dict(session="go infinite / go infinite / isready / stop", exit=res["exit"], bestmoves=nb, out=res["out"][-6:])))
+    ck.cov["go_while_searching_sessions"] = dg
     tsan_note = None
     if full:
         # observer of the replay: the same schedules under ThreadSanitizer; a report on the stop flag is a discrepancy of kind race
@@ -477,6 +490,24 @@ def c09(tier):
         plan.append(plan_line(p["fen"], "depth %d" % rnd.randint(1, 3), sm=rnd.sample(p["moves"], rnd.randint(1, min(4, len(p["moves"])))), tt="warm", tag="sm"))
         if i % 3 == 0:
             plan.append(plan_line(p["fen"], "depth 2", sm=[rnd.choice(p["moves"])], tt="poison", tag="sm"))
+    # searchmoves when NO iteration completes (the answer is then the fallback move): a stop before the search proper starts, and
+    # budgets that are exhausted at the first poll of a large first iteration (capture-saturated roots)
+    tact = [l.strip() for l in open(os.path.join(DATA, "roots_tactical.fen")) if l.strip() and not l.startswith("#")]
+    for i in range(120 if full else 24):
+        p = rnd.choice(quiet)
+        sm = rnd.sample(p["moves"][1:] or p["moves"], min(len(p["moves"][1:] or p["moves"]), rnd.randint(1, 3)))     # never the generator's first move
+        plan.append(plan_line(p["fen"], rnd.choice(["depth 3", "infinite", "movetime 2000"]), sm=sm, tt=rnd.choice(["fresh", "warm"]),
+                              stop_id=rnd.choice(["before_thread_start", "go_entry", "after_init", "after_reset", "node"]), stop_n=1, tag="sm"))
+    tf = os.path.join(ck.work, "tactpool.txt")
+    core.run_vh(exe, ["pool", "--roots", os.path.join(DATA, "roots_tactical.fen"), "--games", 0, "--sparse", 0, "--out", tf, "--seed", 1])
+    pooltact = []
+    for l in open(tf):
+        f = l.rstrip("\n").split("|")
+        pooltact.append(dict(fen=f[0], moves=f[1].split()))
+    for p in pooltact:
+        for go in ["nodes 1", "wtime 1 btime 1", "movetime 1"]:
+            if len(p["moves"]) >= 4:
+                plan.append(plan_line(p["fen"], go, sm=p["moves"][-2:], tt="fresh", tag="sm"))
     # finite time / clock limits must end on their own
     for go in ["movetime 20", "movetime 1", "wtime 300 btime 300", "wtime 50 btime 50 winc 10 binc 10", "wtime 2000 btime 2000 movestogo 40", "nodes 2000", "nodes 1",
                "wtime 1 btime 1", "depth 2 movetime 1000",
@@ -513,8 +544,9 @@ def process_session(engine, script, env_extra, limit_s=20):
     env = dict(os.environ)
     env.update(env_extra or {})
     t0 = time.time()
-    p = subprocess.Popen([engine], stdin=subprocess.PIPE, stdout=subprocess.PIPE, stderr=subprocess.PIPE, text=True, env=env, bufsize=1)
+    p = subprocess.Popen(engine if isinstance(engine, list) else [engine], stdin=subprocess.PIPE, stdout=subprocess.PIPE, stderr=subprocess.PIPE, text=True, env=env, bufsize=1)
     lines, errs = [], []
+    consumed = {}
     cond = threading.Condition()
     def rd():
         for l in p.stdout:
@@ -533,10 +565,11 @@ def process_session(engine, script, env_extra, limit_s=20):
             if c.startswith("@sleep"):
                 time.sleep(int(c.split()[1]) / 1000.0)
             elif c.startswith("@wait"):
+                # the k-th wait for a prefix is satisfied by the k-th output line with that prefix
                 pre = c.split(None, 1)[1]
-                seen = len([l for l in lines if l.startswith(pre)])
+                consumed[pre] = consumed.get(pre, 0) + 1
                 with cond:
-                    cond.wait_for(lambda: len([l for l in lines if l.startswith(pre)]) > seen or any(l.startswith(pre) for l in lines), timeout=limit_s)
+                    cond.wait_for(lambda: len([l for l in lines if l.startswith(pre)]) >= consumed[pre], timeout=limit_s)
             else:
                 p.stdin.write(c + "\n")
                 p.stdin.flush()
@@ -661,7 +694,9 @@ def c10(tier):
             ("end_of_input_while_searching", ["position startpos", "go infinite", "@sleep 100"]),
             ("quit_after_stop", ["position startpos", "go infinite", "@sleep 50", "stop", "@wait bestmove", "quit"]),
             ("quit_after_bestmove", ["position fen " + busy_fen, "go movetime 30", "@wait bestmove", "quit"]),
-            ("quit_idle", ["uci", "isready", "ucinewgame", "quit"])]
+            ("quit_idle", ["uci", "isready", "ucinewgame", "quit"]),
+            # a go that arrives while a search is running ends that search first (both are answered), the reader stays responsive
+            ("go_while_searching", ["position startpos", "go infinite", "@sleep 80", "go infinite", "isready", "@wait readyok", "stop", "@wait bestmove", "@wait bestmove", "quit"])]
     end_results = []
     for name, script in ends:
         for rep in range(8 if full else 4):
@@ -694,6 +729,28 @@ def c10(tier):
         if res["exit"] != 0:
             ck.discrepancy({"kind": "abnormal_exit", "session": name}, dict(prop="C10", kind="abnormal_exit", session=name, detail=dict(exit=res["exit"], stderr_tail=res["stderr"][-800:])))
     ck.cov["indeterminate_value_sessions"] = indet
+    # 8. the same question asked of the optimised build by valgrind's memcheck: a conditional jump, an address or a system call that
+    #    depends on an uninitialised value; positions loaded from FENs of every specialised endgame class (piece lists partly unused),
+    #    searched to depth 2 / 3 through the real front end
+    sparse_pool = [p for p in make_pool(ck, plain, 4, 160 if full else 60, seed_off=41) if p["src"] == "sparse"]
+    vscript = ["uci", "@wait uciok", "ucinewgame"]
+    for pp in sparse_pool[: (120 if full else 40)]:
+        vscript += ["position fen " + pp["fen"], "go depth %d" % rnd.choice([2, 3]), "@wait bestmove"]
+    vscript += ["position startpos moves e2e4 c7c5", "go depth 3", "@wait bestmove", "isready", "@wait readyok", "quit"]
+    res = process_session(["valgrind", "--error-exitcode=9", "-q", build.engine_exe("plain")], vscript, {}, limit_s=120)
+    vrep = [l for l in res["stderr"].splitlines() if l.startswith("==") and ("uninitialised" in l or "Invalid read" in l or "Invalid write" in l)]
+    ck.cov["valgrind_session"] = dict(positions=len(vscript) // 3, exit=res["exit"], reports=len(vrep), bestmoves=len([l for l in res["out"] if l.startswith("bestmove")]))
+    if vrep or res["exit"] != 0:
+        where = ""
+        for l in res["stderr"].splitlines():
+            if " at 0x" in l or " by 0x" in l:
+                if "engine::" in l:
+                    where = l.split("engine::")[1].split("(")[0][:60]
+                    break
+        kind = "uninitialised_value_used" if any("uninitialised" in l for l in vrep) else ("invalid_access" if vrep else "abnormal_exit")
+        ck.discrepancy({"kind": kind, "where": where}, dict(prop="C10", kind=kind, session="valgrind", detail=dict(exit=res["exit"], first=vrep[:3], where=where, stderr_tail=res["stderr"][-1500:])))
+    if ck.cov["valgrind_session"]["bestmoves"] < 10:
+        raise InfraError("valgrind session answered only %d searches" % ck.cov["valgrind_session"]["bestmoves"])
     # well-formedness of the generated long games, decided by the rules specification
     viols, cnt, st = core.validate_shards(wf_shards)
     ck.add_states(st["generated"], st["distinct"])
